@@ -388,3 +388,30 @@ def records_term(case):
             if p not in tbl:
                 tbl[p] = formula_side(p)
     return "(run_records %s %s %s)" % (ctable(tbl), inp, cbytes(col))
+
+
+# ------------------------------------------------------------------ NormalizeAAM.fit, graph-level core (model/C09_Normalize.v)
+
+def normalize_capture(rsmi, fix_aam_indice=True):
+    """run NormalizeAAM.fit and capture, INSIDE the call, the graphs rsmi_to_graph returned and the arguments / results of the two
+    implicit_hydrogen calls (the two module-level names of normalize_aam are wrapped for the duration of the call and restored)"""
+    import copy
+    import synkit.Graph.ITS.normalize_aam as M
+    rec = dict(graphs=None, ih=[])
+    o_r2g, o_ih = M.rsmi_to_graph, M.implicit_hydrogen
+
+    def r2g(*a, **k):
+        out = o_r2g(*a, **k)
+        rec["graphs"] = copy.deepcopy(out)
+        return out
+
+    def ih(g, pres, *a, **k):
+        out = o_ih(g, pres, *a, **k)
+        rec["ih"].append((list(pres), copy.deepcopy(out)))
+        return out
+    M.rsmi_to_graph, M.implicit_hydrogen = r2g, ih
+    try:
+        res = M.NormalizeAAM().fit(rsmi, fix_aam_indice)
+    finally:
+        M.rsmi_to_graph, M.implicit_hydrogen = o_r2g, o_ih
+    return res, rec
